@@ -54,6 +54,12 @@ func planFor(id string) *Plan {
 
 var plans = []Plan{
 	{
+		ID: "C14", Level: "exploration",
+		Rule: "every OpenID Connect flow (code, id_token, id_token token, the three hybrid types, device, plus refresh) x signing key (RSA, P-256 as raw key and as JWK, P-384 / P-521 JWK with the matching alg header) x configured ID-token lifetime x session (subject empty or not, auth_time before / equal / after requested_at or absent, pre-set expiry future / past, session issuer, extra claims that collide with reserved names) x request (nonce incl. URL-special characters, max_age, prompt, id_token_hint own / other subject / expired / garbage / foreign key, openid consented or not) on both stores; oracle: every ID token found in any response is verified with the public key and checked for alg, aud, sub, iss, nonce, exp window, at_hash / c_hash against the access token / code of the same response (left-half hash chosen by alg, computed independently), c_hash absent on refresh, and no ID token may exist when a stated blocker holds. Non-trivial: at least one ID token was issued and checked, or exactly one blocker holds; distinct by (key, flow, session shape, request shape, count).",
+		Jobs: []Job{{Test: "TestC14_IDTokens", Shards: [2]int{16, 16}, Checks: [2]int{300, 8000}, Timeout: [2]int{600, 3000}}},
+	},
+
+	{
 		ID: "C13", Level: "exploration",
 		Rule: "generated client registration (registered response-type combinations incl. reordered ones, grant types, response modes, public flag, request-object algorithm, JWKS, request_uris) x request (response_type multiset with reordering / duplicates / case / unknown members, response_mode incl. junk, state and nonce lengths around the threshold and with URL/HTML-special characters, scope with/without openid, redirect_uri present/absent, request object signed by registered / unregistered / another client's key, alg none, HS256, garbage, by value or by registered / unregistered request_uri); oracle: acceptance implies every stated condition (computed independently), request-object parameters are honoured only if verifiable, no access_token / id_token in any Location query, access tokens only with the implicit grant, a code never redeemable without the authorization_code grant, state echoed byte-identical. Non-trivial: exactly one rule unmet, or an accepted request with an explicit response mode, or a honoured request object; distinct by (type set, mode, lengths, flags, object kind, outcome).",
 		Jobs: []Job{{Test: "TestC13_AuthorizeValidation", Shards: [2]int{16, 16}, Checks: [2]int{600, 15000}, Timeout: [2]int{600, 3000}}},
